@@ -1,7 +1,7 @@
 #!/usr/bin/env bash
 # tools/seedrun.sh <patch.diff> <ID> [tier] : run a check against a patch WITHOUT touching /repo
 # (the patch is applied to a temporary copy of the files it touches, which are then overlaid).
-patch="$1"; id="$2"; tier="${3:-quick}"
+patch="$(realpath "$1")"; id="$2"; tier="${3:-quick}"
 tmp=$(mktemp -d /dev/shm/seed.XXXXXX)
 files=$(grep '^+++ b/' "$patch" | sed 's|^+++ b/||')
 map=""
